@@ -33,6 +33,7 @@ Definition expected (nm : string) : option (list expr) :=
   | ["mdiag"; c; r; ty] => match digit_of c, digit_of r with Some C, Some R => Some (flat_map (fun ci => map (fun ri => if ci =? ri then V F32 0 0 else Cf F32 false 0 0) (zseq R)) (zseq C)) | _, _ => None end
   | ["mconvk"; c; r; k] => match digit_of c, digit_of r with Some C, Some R => Some (map (Cv F32 (kind_of_name k)) (vars (kind_of_name k) 0 (C * R))) | _, _ => None end
   | ["qctor"; "wxyz"; ty] | ["qctor"; "factory"; "wxyz"; ty] => Some [V F32 0 1; V F32 0 2; V F32 0 3; V F32 0 0]
+  | ["qctor"; "xyzwargs"; ty] => Some [V F32 0 0; V F32 0 1; V F32 0 2; V F32 0 3]
   | ["qctor"; "sv"; ty] => Some [V F32 1 0; V F32 1 1; V F32 1 2; V F32 0 0]
   | ["qctor"; "conv"; ty] => Some (map (Cv F32 F64) (vars F64 0 4))
   | _ => None
